@@ -330,6 +330,7 @@ func isEffectFree(name string) bool {
 		"(*google.golang.org/grpc/internal/grpclog.PrefixLogger).", "(*google.golang.org/grpc/grpclog.", "google.golang.org/grpc/grpclog.", "(google.golang.org/grpc/grpclog.",
 		"fmt.Sprintf", "fmt.Sprint", "google.golang.org/grpc/internal/channelz.", "(*google.golang.org/grpc/internal/grpclog.",
 		"google.golang.org/grpc/balancer/base.NewErrPicker",
+		"math.", // package math: pure functions (result unconstrained unless modelled elsewhere)
 		"google.golang.org/grpc/internal/grpclog.",
 	} {
 		if strings.HasPrefix(name, p) {
